@@ -7,12 +7,14 @@ namespace Rare.C10
 open Rare.Expr
 
 /-- Evaluate a compiled body inside a `lazySubContext{args, sub}`: `GetMatch(i)` evaluates the call's
-    `i`-th argument stage in the caller's context (each time it is read), out-of-range indices read as
-    empty, `GetKey` goes to the caller's context. -/
+    `i`-th argument stage in the caller's context (each time it is read), an index beyond the arguments
+    reads as empty, a negative index passes through to the caller's context, `GetKey` goes to the
+    caller's context. -/
 def withArgs {α : Type} (args : List Stage) : Comp α → Comp α
   | .ret a => .ret a
   | .getMatch i k =>
-    if i < 0 ∨ i ≥ args.length then withArgs args (k [])
+    if i < 0 then .getMatch i fun b => withArgs args (k b)
+    else if i ≥ args.length then withArgs args (k [])
     else (args.getD i.toNat (.ret [])).bind fun v => withArgs args (k v)
   | .getKey s k => .getKey s fun b => withArgs args (k b)
   | .panic m => .panic m
